@@ -41,7 +41,10 @@ def build_case(draw):
             extra.append({"name": "ring", "t": {"k": "a", "t": {"k": "p", "t": {"k": "ref", "n": "Root"}}, "len": ["fixed", 2]}, "bits": None})
         used = {f["name"] for f in root["fields"]}
         extra = [e for e in extra if e["name"] not in used]
-        pos = draw(st.integers(0, len(root["fields"])))
+        fl = root["fields"]
+        # never split a run of bit-fields (that would re-pack the following widths into other units)
+        allowed = [i for i in range(len(fl) + 1) if not (0 < i < len(fl) and fl[i - 1].get("bits") and fl[i].get("bits"))]
+        pos = draw(st.sampled_from(allowed))
         root["fields"][pos:pos] = extra
         # regenerate a consistent input for the changed definition
         sem = refsem.Sem(case["defs"], case["cfg"])
